@@ -22,4 +22,15 @@ pub proof fn lemma_registration_is_local(s: DS, kind: int, name: Seq<char>, d: D
     requires kind2 != kind || name2 != name,
     ensures look(s.insert(KV { kind: kind, name: name }, d), kind2, name2) == look(s, kind2, name2),  // @C18 registration.local
 { }
+// rule 30: `self.store.lock().unwrap()` becomes `self.vx_lock()`; the guard is modelled as a shared reference to the locked HashMap
+#[verifier::external_body] pub struct VxDMap { x: u8 }
+impl VxDMap {
+    pub uninterp spec fn map(&self) -> DS;
+    // trusted: HashMap<DescriptorKey, Descriptor>::get (DescriptorKey's derived Eq/Hash compare kind and name: that is kv)
+    #[verifier::external_body] pub fn get(&self, k: &DescriptorKey) -> (r: Option<&Descriptor>)
+        ensures r == (if self.map().dom().contains(kv(*k)) { Some(&self.map()[kv(*k)]) } else { None::<&Descriptor> }) { unimplemented!() }
+}
+impl DescriptorManager {
+    #[verifier::external_body] pub fn vx_lock(&self) -> (r: &VxDMap) ensures r.map() == self@ { unimplemented!() }
+}
 pub assume_specification[<Descriptor as Clone>::clone](a: &Descriptor) -> (r: Descriptor) ensures r == *a;
